@@ -25,7 +25,7 @@ BATCH = 150
 
 
 def gen(rng, tier):
-    n = 160 if tier == 'quick' else 4000
+    n = G.budget(160) if tier == 'quick' else 4000
     for _ in range(n):
         labs, akind = G.alphabet(rng, k=rng.randint(2, 4))
         lag = rng.choice([1, 1, 2, 3])
